@@ -152,9 +152,7 @@ func repro(root string) {
 		}
 		must(db.Reopen())
 		m.put(db, 0, 160)
-		for t := int64(170); t <= 200; t += 10 {
-			m.put(db, 1, t) // series 1 is created in the newest segment
-		}
+		m.put(db, 1, 170) // series 1 is created in the newest segment; one sample: no m-mapped chunk
 		m.put(db, 1, 165) // and has an out-of-order sample in the WBL
 		must(db.Close())
 		m.files, err = readFiles(m)
@@ -176,6 +174,9 @@ func repro(root string) {
 		must(err)
 		fmt.Println("    repair at open:", repairKind(db.Logs()))
 		m.put(db, 2, 220) // a series never written before
+		for _, hs := range db.HeadDump() {
+			fmt.Println("    after the append: series", hs.Labels, "has ref", hs.Ref)
+		}
 		must(db.Reopen())
 		c2, _ := contents(db, m)
 		show("shown but never written (series,t,v)", diff(c2, m.hist))
